@@ -10,6 +10,11 @@ FILES = {
              extern={
                  "tuple(map(posify_index, shape, ind))": "Raise NotImplementedError",
                  "np.asanyarray(ind)": "Ok ind",
+                 # 5e6e40f: integer index arrays are widened to intp before the wrap.  Model arrays hold
+                 # unbounded integers, so the cast is the identity (the model is the intp semantics); the
+                 # test is true for every array that reaches this branch (sanitize_index made it integer).
+                 "ind.dtype.kind in 'iu'": "Ok (VBool (isinst_array ind))",
+                 "ind.astype(np.intp, copy=False)": "Ok ind",
                  "np.where(ind < 0, ind + shape, ind)": "ext_where_neg ind shape",
              }),
         dict(name="g_clip_slice", file=SL, func="clip_slice"),
